@@ -312,6 +312,11 @@ def check(ctx: Ctx) -> None:
     # a length lookup whose first entry is only partly satisfied (all criteria of an entry must hold), end to end
     from .c01 import end_to_end_second
     ctx.guard("R7.e2", ENC, end_to_end_second, ctx, "R7.e2")
+    # the computed length is a function of this packet only: the string / binary decoders keep nothing between packets
+    from ..callgraph import CallGraph
+    from .c11 import effect_rule
+    roots = [f"{ENC}::StringDataEncoding.parse_value", f"{ENC}::BinaryDataEncoding.parse_value"]
+    ctx.guard("R7.pure", ENC, effect_rule, ctx, CallGraph(ctx.prog), roots, "R7.pure", "string / binary decoding")
 
 
 def mutants(prog):
@@ -345,7 +350,7 @@ SPEC = PropSpec(
     pid="C07",
     title="String and binary fields, including computed lengths, decode as documented",
     check=check,
-    floors={"R7.bin": 7, "R7.str": 40, "R7.xml": 10, "R7.e2": 10},
+    floors={"R7.bin": 7, "R7.str": 40, "R7.xml": 10, "R7.e2": 10, "R7.pure": 3},
     explanation=("Decision tables by abstract interpretation of BinaryDataEncoding / StringDataEncoding (parse_value, "
                  "_calculate_size, _get_raw_buffer, the linear adjuster, the cursor readers) against the checker's own "
                  "bit-string reference: binary fields for all start offsets 0..7 x nine lengths x six length "
